@@ -17,6 +17,7 @@ Everything is by induction over the history / the value list; nothing is sampled
 -/
 import MetricsVerif.Proofs.Statsd
 import MetricsVerif.Proofs.StatsdRead
+import MetricsVerif.Proofs.StatsdFwd
 import MetricsVerif.Generated.SourceFacts
 
 namespace MetricsVerif.C09
@@ -575,5 +576,180 @@ example : outputs 64 true Fixes.all
      .hist ⟨104, [108], [], none, some [48, 46, 53], none, [([103], [])]⟩ [[50, 46, 48]], .drain]
     = some [.wrote 1 0, .drained [[13, 0, 0, 0, 108, 58, 49, 46, 48, 124, 104, 124, 64, 49, 46, 48, 10]],
             .wrote 1 0, .drained [[16, 0, 0, 0, 108, 58, 50, 46, 48, 124, 104, 124, 64, 48, 46, 53, 124, 35, 103, 10]]] := by decide
+
+/-! ## the forwarder's client state machine (forwarder/sync.rs): what a receiver sees on each connection
+
+The payloads the writer emits (`framed`) are handed one by one to `ClientState::try_send`.  The theorems below are
+about `Model/StatsdFwd`: ANY sequence of payloads against ANY behaviour of the environment (connects that fail,
+sockets that accept everything, sockets that accept `k` bytes and then fail — a write timeout in the middle of a
+frame, a receiver that went away). -/
+
+section Forwarder
+open MetricsVerif.StatsdFwd
+
+/-- **every payload at most once, every `Ok` payload exactly once** (both transports).  The whole payloads that
+    reached a socket (for a datagram socket: the datagrams received), over all sockets the client ever made, in
+    order, are exactly the payloads whose `try_send` returned `Ok`, in order: nothing reported as sent is missing
+    or repeated, and a payload whose send failed is never delivered whole. -/
+theorem fwd_ok_exactly_once (stream : Bool) (ops : List (Bytes × Env)) :
+    (conns (StatsdFwd.run (init stream) ops).1).flatMap rxDgram = okSent ops (StatsdFwd.run (init stream) ops).2 := by
+  have := run_received ops (init stream)
+  simpa [conns, init] using this
+
+/-- **a failed send ends its connection.**  After any history: on the live socket every send returned `Ok`; on a
+    dropped socket every send but the last returned `Ok` and the last one failed — nothing is ever written behind
+    a failed (possibly partial) write. -/
+theorem fwd_failed_send_closes (stream : Bool) (ops : List (Bytes × Env)) :
+    (∀ c, (StatsdFwd.run (init stream) ops).1.ready = some c → ∀ ch ∈ c, ch.ok = true)
+    ∧ ∀ c ∈ (StatsdFwd.run (init stream) ops).1.closed,
+        ∃ pre last, c = pre ++ [last] ∧ (∀ ch ∈ pre, ch.ok = true) ∧ last.ok = false := by
+  have h := run_inv (P := fun _ => True) ops (init stream) (init_inv _ _) (fun _ _ => trivial)
+  refine ⟨fun c hc ch hm => (h.live c hc ch hm).1, ?_⟩
+  intro c hc
+  obtain ⟨pre, last, e, hp, hl, _⟩ := h.closed c hc
+  exact ⟨pre, last, e, fun ch hm => (hp ch hm).1, hl⟩
+
+theorem run_stream (ops : List (Bytes × Env)) : ∀ (s : Fwd), (StatsdFwd.run s ops).1.stream = s.stream := by
+  induction ops with
+  | nil => intro s; rfl
+  | cons op ops ih => intro s; obtain ⟨p, e⟩ := op; simp only [StatsdFwd.run]; rw [ih, trySend_stream]
+
+/-- **framing on every connection (length-prefixed mode).**  If every payload handed to the client is a lpFrame
+    (`le32 |body| ++ body`, which `framed` proves of the writer's output), then on EVERY connection the client ever
+    made the Agent's reader (`deframe`: 4-byte little-endian length, that many bytes, repeat) reads exactly the
+    bodies of the payloads whose send on that connection returned `Ok`, in order, and is left with nothing or with
+    one truncated lpFrame; on the live connection it is left with nothing.  So each payload the receiver sees is
+    preceded by its exact length, whatever the write results were. -/
+theorem fwd_stream_framed (ops : List (Bytes × Env)) (hf : ∀ op ∈ ops, IsFrame op.1) :
+    ∀ c ∈ conns (StatsdFwd.run (init true) ops).1,
+      ∃ t, TornFrame t
+        ∧ deframe (rxStream c) = ((rxDgram c).map (·.drop 4), t)
+        ∧ ((deframe (rxStream c)).1).map lpFrame = rxDgram c
+        ∧ ((StatsdFwd.run (init true) ops).1.ready = some c → t = []) := by
+  have h := run_inv (P := IsFrame) ops (init true) (init_inv _ _) hf
+  have hs : (StatsdFwd.run (init true) ops).1.stream = true := run_stream ops (init true)
+  have hlive : ∀ c, (StatsdFwd.run (init true) ops).1.ready = some c → LiveOk IsFrame true c := by
+    intro c hc; have := h.live c hc; rwa [hs] at this
+  have hclosed : ∀ c ∈ (StatsdFwd.run (init true) ops).1.closed, ClosedOk IsFrame true c := by
+    intro c hc; have := h.closed c hc; rwa [hs] at this
+  -- a socket on which every send succeeded
+  have live : ∀ c, LiveOk IsFrame true c →
+      deframe (rxStream c) = ((rxDgram c).map (·.drop 4), []) ∧ ((rxDgram c).map (·.drop 4)).map lpFrame = rxDgram c := by
+    intro c hc
+    obtain ⟨h1, h2⟩ := live_bytes hc
+    have hd : rxDgram c = c.map (·.bytes) := by simp [rxDgram, filter_ok_live hc]
+    have hm : (c.map (·.bytes)).map (·.drop 4) = c.map (fun ch => ch.bytes.drop 4) := by simp
+    refine ⟨?_, ?_⟩
+    · have := deframe_frames _ h2 [] (Or.inl rfl)
+      rw [← h1, List.append_nil] at this
+      rw [hd, hm]; exact this
+    · rw [hd, hm, ← h1]
+  intro c hc
+  simp only [conns, List.mem_append, Option.mem_toList] at hc
+  rcases hc with hc | hc
+  · -- a dropped socket: successful sends, then the failed one
+    obtain ⟨pre, last, rfl, hpre, hlast, p, w, ⟨b, hb, rfl⟩, rfl⟩ := hclosed c hc
+    obtain ⟨k, hk, hbytes⟩ := clientSend_torn hlast
+    obtain ⟨h1, h2⟩ := live_bytes hpre
+    have hd : rxDgram (pre ++ [clientSend true (lpFrame b) w]) = pre.map (·.bytes) := by
+      rw [rxDgram_append]; simp [hlast, rxDgram, filter_ok_live hpre]
+    have hm : (pre.map (·.bytes)).map (·.drop 4) = pre.map (fun ch => ch.bytes.drop 4) := by simp
+    have ht : TornFrame ((lpFrame b).take k) := Or.inr ⟨b, k, hb, hk, rfl⟩
+    have hrx : rxStream (pre ++ [clientSend true (lpFrame b) w])
+        = ((pre.map (fun ch => ch.bytes.drop 4)).map lpFrame).flatten ++ (lpFrame b).take k := by
+      simp [rxStream, hbytes, ← h1]
+    have hde := deframe_frames _ h2 _ ht
+    refine ⟨(lpFrame b).take k, ht, ?_, ?_, ?_⟩
+    · rw [hrx, hd, hm]; exact hde
+    · rw [hrx, hde, hd, ← h1]
+    · intro hr
+      -- the live socket has no failed send on it
+      have := (hlive _ hr (clientSend true (lpFrame b) w) (by simp)).1
+      rw [hlast] at this; cases this
+  · obtain ⟨l1, l2⟩ := live c (hlive c hc)
+    exact ⟨[], Or.inl rfl, l1, by rw [l1]; exact l2, fun _ => rfl⟩
+
+theorem flatMap_congr_mem {α β : Type} {l : List α} {f g : α → List β} (h : ∀ x ∈ l, f x = g x) :
+    l.flatMap f = l.flatMap g := by
+  induction l with
+  | nil => rfl
+  | cons a l ih =>
+    simp only [List.flatMap_cons]
+    rw [h a (List.mem_cons_self ..), ih (fun x hx => h x (List.mem_cons_of_mem _ hx))]
+
+/-- **what the Agent receives over all connections = what was reported as sent.**  Length-prefixed mode, any
+    payload sequence of frames, any write results: re-framing the bodies the Agent's reader extracts from all
+    connections (oldest first) gives back exactly the payloads whose `try_send` returned `Ok`, in order — each
+    once, none torn, none invented. -/
+theorem fwd_receiver_sees_sent_frames (ops : List (Bytes × Env)) (hf : ∀ op ∈ ops, IsFrame op.1) :
+    ((conns (StatsdFwd.run (init true) ops).1).flatMap (fun c => (deframe (rxStream c)).1)).map lpFrame
+      = okSent ops (StatsdFwd.run (init true) ops).2 := by
+  rw [← fwd_ok_exactly_once, List.map_flatMap]
+  apply flatMap_congr_mem
+  intro c hc
+  obtain ⟨t, _, _, h3, _⟩ := fwd_stream_framed ops hf c hc
+  exact h3
+
+/-- **the writer's output is what the framing theorems assume.**  In length-prefixed mode every slice of every
+    drain of every history of the writer is a frame `le32 |body| ++ body` with `|body| < 2³²` (from `framed`,
+    `bounded` and the `u32` assertion of `new`). -/
+theorem writer_output_is_frames {max : Nat} {w0 : Writer} (h0 : new max true Fixes.all = some w0) (ops : List Op)
+    (w : Writer) (outs : List Out) (hr : Statsd.run w0 ops = some (w, outs)) (slices : List Bytes)
+    (hd : Out.drained slices ∈ outs) : ∀ s ∈ slices, IsFrame s := by
+  obtain ⟨bodies, hs, hb⟩ := framed h0 ops w outs hr slices hd
+  have hmax : max < 4294967296 := by
+    unfold new at h0
+    split at h0
+    · assumption
+    · cases h0
+  intro s hmem
+  rw [hs] at hmem
+  obtain ⟨b, hbm, rfl⟩ := List.mem_map.mp hmem
+  exact ⟨b, Nat.lt_of_le_of_lt (hb b hbm) hmax, by simp [lpFrame]⟩
+
+/-- **why the socket must be dropped after a failed stream write** (the design fact the two theorems above rest
+    on): a truncated lpFrame followed by a perfectly good lpFrame on the same connection makes the Agent's reader
+    deliver a "payload" that was never sent.  Witness: 1 of the 3 body bytes of `a:1` arrived, then the lpFrame of
+    `b` — the reader delivers `a 01 00`. -/
+theorem torn_frame_then_more_misframes :
+    ∃ (b1 b2 : Bytes) (k : Nat), k < (lpFrame b1).length
+      ∧ ∃ x ∈ (deframe ((lpFrame b1).take k ++ lpFrame b2)).1, x ≠ b1 ∧ x ≠ b2 :=
+  ⟨[97, 58, 49], [98], 5, by decide, [97, 1, 0], by decide, by decide, by decide⟩
+
+set_option maxRecDepth 100000 in
+/-- **src_forwarder_client.**  The client state machine of the current source is the one modelled: `Forwarder::new`
+    starts `Disconnected`; the `Ready` arm of `try_send` sends, keeps the socket iff the result `is_ok()` and drops
+    it (`Disconnected`) on EVERY error, with no test of the error kind; the `Disconnected` arm connects, stays
+    `Disconnected` and returns the error when that fails; these are the only four state writes; the stream arm
+    sends with `write_all`; every socket gets the configured write timeout; `run` hands every payload of the drain
+    to `try_send` regardless of earlier results. -/
+theorem src_forwarder_client :
+    Generated.dsd_forwarder_new_client_state = "ClientState::Disconnected(config.clone())"
+    ∧ Generated.dsd_try_send_ready_arm
+        = "{ let result = client.send(payload); if result.is_ok() { *self = ClientState::Ready(config, client); } else { *self = ClientState::Disconnected(config); } return result; }"
+    ∧ Generated.dsd_try_send_disconnected_arm
+        = "match Client::from_forwarder_config(&config) { Ok(client) => *self = ClientState::Ready(config, client), Err(e) => { *self = ClientState::Disconnected(config); return Err(e); } },"
+    ∧ Generated.dsd_try_send_state_writes
+        = ["ClientState::Ready", "ClientState::Disconnected", "ClientState::Ready", "ClientState::Disconnected"]
+    ∧ Generated.dsd_unix_send = "socket.write_all(buf)"
+    ∧ Generated.dsd_stream_write_timeout
+        = ["Some(config.write_timeout)", "Some(config.write_timeout)", "Some(config.write_timeout)"]
+    ∧ Generated.dsd_run_payload_loop
+        = "while let Some(payload) = payloads.next_payload() { if let Err(e) = self.client_state.try_send(payload)" := by
+  decide
+
+/-! non-vacuity: a stalled receiver tears the second lpFrame, the client reconnects, traffic continues -/
+example :
+    let ops : List (Bytes × Env) :=
+      [(lpFrame [97, 58, 49], ⟨true, .full⟩), (lpFrame [98, 58, 50, 50], ⟨true, .fail 6⟩), (lpFrame [99], ⟨false, .full⟩),
+       (lpFrame [99], ⟨true, .full⟩), (lpFrame [], ⟨true, .fail 0⟩)]
+    let r := StatsdFwd.run (init true) ops
+    r.2 = [some 7, none, none, some 5, none]
+    ∧ (conns r.1).map (fun c => deframe (rxStream c)) = [([[97, 58, 49]], [4, 0, 0, 0, 98, 58]), ([[99]], [])]
+    ∧ r.1.ready = none := by decide
+example : (StatsdFwd.run (init false) [([1], ⟨true, .full⟩), ([2], ⟨true, .fail 1⟩), ([3], ⟨true, .full⟩)]).1.closed.map rxDgram
+    = [[[1]]] := by decide
+
+end Forwarder
 
 end MetricsVerif.C09
